@@ -262,3 +262,15 @@ func replay(raw stdjson.RawMessage) (bool, string) {
 	o := sc.Eval(cs)
 	return o.Direction() != "", fmt.Sprintf("%s: Check=%s Validate=%s reference=%s", cs.Describe(), o.Check, o.Val, o.Ref)
 }
+
+// ForEachSchema enumerates the rule-free fragment (both configurations).
+func ForEachSchema(maxNodes int, f func(sc.Case)) {
+	for n := 1; n <= maxNodes; n++ {
+		shapes(n, func(shape *gen.Node) {
+			withFlags(shape, []int{0, 1}, func(root *gen.Node) {
+				f(sc.Case{Root: root})
+				f(sc.Case{Root: root, Opt: true})
+			})
+		})
+	}
+}
